@@ -3,8 +3,10 @@ package rules
 import (
 	"fmt"
 	"go/ast"
+	"go/constant"
 	"go/token"
 	"go/types"
+	"sort"
 	"strings"
 
 	"golang.org/x/tools/go/ssa"
@@ -1035,54 +1037,12 @@ func r12RingSizeGuards(c *core.Ctx) {
 		}
 	}
 	c.Check(R, "short-rings-are-points-and-lines/"+f.Name, f.Decl.Pos(), okShort && nshort == 2, "both short-ring exits return the ring only as points-and-lines", "a ring with fewer than 3 vertices is returned as an outer or inner ring")
-	// closing vertex removed before the first size test: the first statement after the length is taken is
-	// `if … ring[0] == ring[len-1] { ring = ring[:len-1]; … }`
+	// closing vertex removed before the first size test: the ring handed to kmpDeduplicate is, on every path, the
+	// parameter itself or parameter[:len-1], the latter exactly when len > 1 && ring[0] == ring[len-1]; the
+	// removal may live in cleanupNewRing or in a helper it calls
 	{
-		finfo := f.Pkg.TypesInfo
-		okClose := false
-		ring := f.Obj.Type().(*types.Signature).Params().At(0)
-		seenSizeTest := false
-		for _, st := range f.Decl.Body.List {
-			is, ok := st.(*ast.IfStmt)
-			if !ok {
-				continue
-			}
-			isSize := false
-			for _, dj := range disjuncts(is.Cond) {
-				if be, ok := ast.Unparen(dj).(*ast.BinaryExpr); ok && be.Op == token.LSS && canon(be.Y) == "3" {
-					isSize = true
-				}
-			}
-			if isSize {
-				seenSizeTest = true
-				continue
-			}
-			if seenSizeTest {
-				continue
-			}
-			eq := false
-			for _, cj := range conjuncts(is.Cond) {
-				if be, ok := ast.Unparen(cj).(*ast.BinaryExpr); ok && be.Op == token.EQL {
-					l, lok := ast.Unparen(be.X).(*ast.IndexExpr)
-					r, rok := ast.Unparen(be.Y).(*ast.IndexExpr)
-					if lok && rok && core.ObjOf(finfo, l.X) == ring && core.ObjOf(finfo, r.X) == ring && canon(l.Index) == "0" && strings.HasSuffix(canon(r.Index), "-1") {
-						eq = true
-					}
-				}
-			}
-			resliced := false
-			for _, bs := range is.Body.List {
-				if as, ok := bs.(*ast.AssignStmt); ok && len(as.Lhs) == 1 && core.ObjOf(finfo, as.Lhs[0]) == ring {
-					if sl, ok := as.Rhs[0].(*ast.SliceExpr); ok && core.ObjOf(finfo, sl.X) == ring && sl.Low == nil && sl.High != nil && strings.HasSuffix(canon(sl.High), "-1") {
-						resliced = true
-					}
-				}
-			}
-			if eq && resliced {
-				okClose = true
-			}
-		}
-		c.Check(R, "closing-vertex-removed-first/"+f.Name, f.Decl.Pos(), okClose, "a repeated closing vertex is dropped before the size test", "the closing vertex is not removed before rings are measured")
+		why := closingVertexDropped(c.P, fn, fn.Params[0], kd[0].Call.Args[0])
+		c.Check(R, "closing-vertex-removed-first/"+f.Name, f.Decl.Pos(), why == "", "a repeated closing vertex is dropped (exactly when the ring has more than one vertex and first == last) before the size test", "the closing vertex is not removed before rings are measured: "+why)
 	}
 	// keep/drop policy in addPointsAndSnap
 	info := aps.Pkg.TypesInfo
@@ -1236,14 +1196,183 @@ func isLenOf(v ssa.Value, x ssa.Value) bool {
 			return true
 		}
 	}
-	// newRingLen phi paired with the newRing phi in the same block: accept when x is a phi in the same block
+	// newRingLen phi paired with the newRing phi in the same block: every edge of the length phi is the
+	// length of the corresponding edge of the ring phi (len(s) for s, len(s)-1 for s[:len(s)-1])
 	if p, ok := v.(*ssa.Phi); ok {
-		if px, ok := x.(*ssa.Phi); ok && px.Block() == p.Block() {
-			// every edge: len edge corresponds to slice edge (len(s) / len(s)-1 with s / s[:len-1])
-			return len(p.Edges) == len(px.Edges)
+		if px, ok := x.(*ssa.Phi); ok && px.Block() == p.Block() && len(p.Edges) == len(px.Edges) {
+			for i := range p.Edges {
+				if isLenOf(p.Edges[i], px.Edges[i]) {
+					continue
+				}
+				if sl, ok := px.Edges[i].(*ssa.Slice); ok && sl.Low == nil && sl.High != nil && isLenMinusOne(p.Edges[i], sl.X) && isLenMinusOne(sl.High, sl.X) {
+					continue
+				}
+				return false
+			}
+			return true
 		}
 	}
 	return false
+}
+
+// isLenMinusOne: v is len(x) - 1.
+func isLenMinusOne(v ssa.Value, x ssa.Value) bool {
+	b, ok := v.(*ssa.BinOp)
+	return ok && b.Op == token.SUB && isLenOf(b.X, x) && isConstInt(b.Y, 1)
+}
+
+// closingVertexDropped checks that out is in on every path except that it is in[:len(in)-1] exactly when
+// len(in) > 1 && in[0] == in[len(in)-1].  out may be a phi in fn or the result of a one-result module helper.
+// It returns "" or the reason the shape was not recognised.
+func closingVertexDropped(p *core.Prog, fn *ssa.Function, in ssa.Value, out ssa.Value) string {
+	if call, ok := out.(*ssa.Call); ok {
+		g := call.Call.StaticCallee()
+		if g == nil || len(g.Blocks) == 0 || !core.IsModPath(core.FuncPkgPath(g)) || g.Signature.Results().Len() != 1 {
+			return "the ring measured is the result of a call that is not a one-result module helper"
+		}
+		j := -1
+		for i, a := range call.Call.Args {
+			if a == in {
+				j = i
+			}
+		}
+		if j < 0 {
+			return "the helper is not called with the ring"
+		}
+		fn, in = g, g.Params[j]
+		out = nil
+	}
+	type exit struct {
+		val      ssa.Value
+		from, to *ssa.BasicBlock // edge (phi form); to == nil: the return in block from
+	}
+	var exits []exit
+	expand := func(v ssa.Value, retBlock *ssa.BasicBlock) {
+		if ph, ok := v.(*ssa.Phi); ok {
+			for i, e := range ph.Edges {
+				exits = append(exits, exit{e, ph.Block().Preds[i], ph.Block()})
+			}
+			return
+		}
+		exits = append(exits, exit{v, retBlock, nil})
+	}
+	if out != nil {
+		if _, ok := out.(*ssa.Phi); !ok {
+			if out == in {
+				return "the ring is measured as it came in"
+			}
+			return "the ring measured is not a merge of the ring and the ring without its last vertex"
+		}
+		expand(out, nil)
+	} else {
+		for _, b := range fn.Blocks {
+			if len(b.Instrs) == 0 {
+				continue
+			}
+			if r, ok := b.Instrs[len(b.Instrs)-1].(*ssa.Return); ok && len(r.Results) == 1 {
+				expand(r.Results[0], b)
+			}
+		}
+	}
+	// the two conditions
+	var ifLen, ifEq *ssa.If
+	for _, b := range fn.Blocks {
+		if len(b.Instrs) == 0 {
+			continue
+		}
+		i, ok := b.Instrs[len(b.Instrs)-1].(*ssa.If)
+		if !ok {
+			continue
+		}
+		cmp, ok := i.Cond.(*ssa.BinOp)
+		if !ok {
+			continue
+		}
+		switch {
+		case cmp.Op == token.GTR && isLenOf(cmp.X, in) && isConstInt(cmp.Y, 1),
+			cmp.Op == token.GEQ && isLenOf(cmp.X, in) && isConstInt(cmp.Y, 2),
+			cmp.Op == token.LSS && isLenOf(cmp.Y, in) && isConstInt(cmp.X, 1),
+			cmp.Op == token.LEQ && isLenOf(cmp.Y, in) && isConstInt(cmp.X, 2):
+			if ifLen != nil {
+				return "more than one length test"
+			}
+			ifLen = i
+		case cmp.Op == token.EQL:
+			elem := func(v ssa.Value) (ssa.Value, bool) {
+				u, ok := v.(*ssa.UnOp)
+				if !ok || u.Op != token.MUL {
+					return nil, false
+				}
+				ia, ok := u.X.(*ssa.IndexAddr)
+				if !ok || ia.X != in {
+					return nil, false
+				}
+				return ia.Index, true
+			}
+			l, lok := elem(cmp.X)
+			r, rok := elem(cmp.Y)
+			if lok && rok && ((isConstInt(l, 0) && isLenMinusOne(r, in)) || (isConstInt(r, 0) && isLenMinusOne(l, in))) {
+				if ifEq != nil {
+					return "more than one first==last test"
+				}
+				ifEq = i
+			}
+		}
+	}
+	if ifLen == nil {
+		return "no test that the ring has more than one vertex (len > 1)"
+	}
+	if ifEq == nil {
+		return "no test ring[0] == ring[len-1]"
+	}
+	reach := func(disabled func(b *ssa.BasicBlock, k int) bool) map[*ssa.BasicBlock]map[*ssa.BasicBlock]bool {
+		// reachable edges: from -> to (to == nil marks that the block itself is reachable)
+		seen := map[*ssa.BasicBlock]map[*ssa.BasicBlock]bool{}
+		var visit func(b *ssa.BasicBlock)
+		visit = func(b *ssa.BasicBlock) {
+			if seen[b] != nil {
+				return
+			}
+			seen[b] = map[*ssa.BasicBlock]bool{nil: true}
+			for k, sb := range b.Succs {
+				if disabled(b, k) {
+					continue
+				}
+				seen[b][sb] = true
+				visit(sb)
+			}
+		}
+		visit(fn.Blocks[0])
+		return seen
+	}
+	noTrueLen := reach(func(b *ssa.BasicBlock, k int) bool { return b == ifLen.Block() && k == 0 })
+	noTrueEq := reach(func(b *ssa.BasicBlock, k int) bool { return b == ifEq.Block() && k == 0 })
+	noFalse := reach(func(b *ssa.BasicBlock, k int) bool {
+		return (b == ifLen.Block() || b == ifEq.Block()) && k == 1
+	})
+	nIn, nSl := 0, 0
+	for _, e := range exits {
+		switch {
+		case e.val == in:
+			nIn++
+			if noFalse[e.from] != nil && noFalse[e.from][e.to] {
+				return "the ring keeps its last vertex on a path where len > 1 and first == last"
+			}
+		default:
+			sl, ok := e.val.(*ssa.Slice)
+			if !ok || sl.X != in || sl.Low != nil || sl.High == nil || !isLenMinusOne(sl.High, in) {
+				return "an exit yields something other than ring or ring[:len-1]"
+			}
+			nSl++
+			if (noTrueLen[e.from] != nil && noTrueLen[e.from][e.to]) || (noTrueEq[e.from] != nil && noTrueEq[e.from][e.to]) {
+				return "the last vertex is dropped on a path where len > 1 && first == last does not hold"
+			}
+		}
+	}
+	if nIn == 0 || nSl == 0 {
+		return "the ring is not conditionally shortened"
+	}
+	return ""
 }
 
 // R13: winding normalisation first, reversal last.
@@ -1381,7 +1510,207 @@ func r13WindingOrder(c *core.Ctx) {
 		}
 		c.Check(R, "orientation-predicate-shared/snap", w.Decl.Pos(), users >= 3, fmt.Sprintf("%d uses in ensureCorrectWindingOrder and splitRing", users), "normalisation and split classification no longer share one orientation predicate")
 	}
+	// an inner ring that becomes the shell of a polygon of its own is turned around first
+	if mf := c.Anchor(R, "snap.matchInnersToPolygons"); mf != nil {
+		r13TurnedOuter(c, mf)
+	}
 	c.Floor(R, 3)
+}
+
+// r13TurnedOuter: in matchInnersToPolygons the inner rings arrive clockwise (normalised before routing, classified
+// by orientation in splitRing).  A ring of that parameter that is stored as ring 0 of a newly made polygon must
+// have passed through ReverseClone or ensureCorrectWindingOrder(·, false); a raw inner ring, or one that passed
+// through anything else, as ring 0 of a new polygon is a clockwise shell.
+func r13TurnedOuter(c *core.Ctx, mf *core.Func) {
+	const R = "R13"
+	key := "turned-outer-is-reversed/" + mf.Name
+	fn := mf.SSA
+	var inner *ssa.Parameter
+	for _, prm := range fn.Params {
+		if prm.Name() == "innerRings" || (inner == nil && isRingSliceType(prm.Type()) && prm != fn.Params[0]) {
+			inner = prm
+		}
+	}
+	if inner == nil || !isRingSliceType(inner.Type()) {
+		c.Unknown(R, key, mf.Decl.Pos(), "cannot identify the inner-rings parameter of matchInnersToPolygons")
+		return
+	}
+	idx := c.P.SiteIndex(c.P.VTA())
+	isTurner := func(f *ssa.Function) bool {
+		if f == nil {
+			return false
+		}
+		n := f.Name()
+		if o := f.Origin(); o != nil {
+			n = o.Name()
+		}
+		return (n == "ReverseClone" && strings.HasSuffix(core.FuncPkgPath(f), "/mapslicehelp")) || (n == "ensureCorrectWindingOrder" && strings.HasSuffix(core.FuncPkgPath(f), "/snap"))
+	}
+	follow := func(f *ssa.Function) bool {
+		return core.IsModPath(core.FuncPkgPath(f)) && !isTurner(f) && f.Name() != "ringContains"
+	}
+	opts := core.FlowOpts{Idx: idx, Follow: follow, Containers: true, Appends: true}
+	raw := opts.Run([]ssa.Value{inner})
+	// classify the calls that take a raw ring and give back a ring
+	var okSeeds, otherSeeds []ssa.Value
+	funcs := map[*ssa.Function]bool{fn: true}
+	for v := range raw {
+		if in, ok := v.(ssa.Instruction); ok && in.Parent() != nil {
+			funcs[in.Parent()] = true
+		}
+		if prm, ok := v.(*ssa.Parameter); ok && prm.Parent() != nil {
+			funcs[prm.Parent()] = true
+		}
+	}
+	for f := range funcs {
+		for _, b := range f.Blocks {
+			for _, in := range b.Instrs {
+				call, ok := in.(*ssa.Call)
+				if !ok || !isRingType(call.Type()) {
+					continue
+				}
+				takes := false
+				for _, a := range call.Call.Args {
+					if raw[a] && isRingType(a.Type()) {
+						takes = true
+					}
+				}
+				if !takes {
+					continue
+				}
+				if _, isB := call.Call.Value.(*ssa.Builtin); isB {
+					continue
+				}
+				callee := call.Call.StaticCallee()
+				switch {
+				case isTurner(callee) && strings.HasPrefix(callee.Name(), "ReverseClone") && raw[call.Call.Args[0]]:
+					okSeeds = append(okSeeds, call)
+				case isTurner(callee) && callee.Name() == "ensureCorrectWindingOrder" && raw[call.Call.Args[0]] && isConstBool(call.Call.Args[1], false):
+					okSeeds = append(okSeeds, call)
+				case callee != nil && follow(callee) && len(callee.Blocks) > 0:
+					// followed: its body is inspected like the rest
+				default:
+					otherSeeds = append(otherSeeds, call)
+				}
+			}
+		}
+	}
+	good := opts.Run(okSeeds)
+	other := opts.Run(otherSeeds)
+	for v := range good {
+		if in, ok := v.(ssa.Instruction); ok && in.Parent() != nil {
+			funcs[in.Parent()] = true
+		}
+	}
+	nGood := 0
+	var bad []string
+	for f := range funcs {
+		for _, b := range f.Blocks {
+			for _, in := range b.Instrs {
+				st, ok := in.(*ssa.Store)
+				if !ok || !isRingType(st.Val.Type()) {
+					continue
+				}
+				ia, ok := st.Addr.(*ssa.IndexAddr)
+				if !ok || !isConstInt(ia.Index, 0) {
+					continue
+				}
+				if !ringZeroOfNewPolygon(ia) {
+					continue
+				}
+				// ring 0 of a polygon literal
+				switch {
+				case rawRing(raw, st.Val) || other[st.Val]:
+					bad = append(bad, c.P.Fset.Position(st.Pos()).String())
+				case good[st.Val]:
+					nGood++
+				}
+			}
+		}
+	}
+	sort.Strings(bad)
+	switch {
+	case len(bad) > 0:
+		c.Bad(R, key, mf.Decl.Pos(), fmt.Sprintf("an inner ring becomes ring 0 of a new polygon without being turned around (ReverseClone / ensureCorrectWindingOrder(ring, false)) at %v: inner rings are clockwise here, so the new shell is clockwise", bad))
+	case nGood == 0:
+		c.Unknown(R, key, mf.Decl.Pos(), "no polygon literal whose ring 0 is a turned-around inner ring was found in matchInnersToPolygons or the helpers it passes inner rings to: the way unmatched inner rings become polygons is not recognised")
+	default:
+		c.OK(R, key, mf.Decl.Pos(), fmt.Sprintf("%d new-polygon literal(s) take a turned-around inner ring as ring 0, none a raw one", nGood))
+	}
+}
+
+// ringZeroOfNewPolygon: the element address is index 0 of a freshly made polygon: a composite literal, a make, or
+// the variadic argument list of an append to nil / to an empty fresh slice.  (append(existingPolygon, ring) adds a
+// hole and does not count.)
+func ringZeroOfNewPolygon(ia *ssa.IndexAddr) bool {
+	freshEmpty := func(v ssa.Value) bool {
+		switch x := v.(type) {
+		case *ssa.Const:
+			return x.IsNil()
+		case *ssa.MakeSlice:
+			return isConstInt(x.Len, 0)
+		case *ssa.Slice:
+			if a, ok := x.X.(*ssa.Alloc); ok {
+				if pt, ok := a.Type().Underlying().(*types.Pointer); ok {
+					if ar, ok := pt.Elem().Underlying().(*types.Array); ok {
+						return ar.Len() == 0
+					}
+				}
+			}
+		}
+		return false
+	}
+	switch x := ia.X.(type) {
+	case *ssa.MakeSlice:
+		return true
+	case *ssa.Alloc:
+		if x.Comment != "varargs" {
+			return true
+		}
+		for _, r := range *x.Referrers() {
+			sl, ok := r.(*ssa.Slice)
+			if !ok {
+				continue
+			}
+			for _, rr := range *sl.Referrers() {
+				if call, ok := rr.(*ssa.Call); ok {
+					if b, isB := call.Call.Value.(*ssa.Builtin); isB && b.Name() == "append" && len(call.Call.Args) == 2 && call.Call.Args[1] == ssa.Value(sl) {
+						return freshEmpty(call.Call.Args[0])
+					}
+				}
+			}
+		}
+	}
+	return false
+}
+
+// rawRing: v holds a ring of the tracked set itself (not a container of it).
+func rawRing(T map[ssa.Value]bool, v ssa.Value) bool { return T[v] && isRingType(v.Type()) }
+
+func isRingType(t types.Type) bool {
+	sl, ok := t.Underlying().(*types.Slice)
+	if !ok {
+		return false
+	}
+	ar, ok := sl.Elem().Underlying().(*types.Array)
+	if !ok || ar.Len() != 2 {
+		return false
+	}
+	b, ok := ar.Elem().Underlying().(*types.Basic)
+	return ok && b.Kind() == types.Float64
+}
+
+func isRingSliceType(t types.Type) bool {
+	sl, ok := t.Underlying().(*types.Slice)
+	return ok && isRingType(sl.Elem())
+}
+
+func isConstBool(v ssa.Value, want bool) bool {
+	k, ok := v.(*ssa.Const)
+	if !ok || k.Value == nil || k.Value.Kind() != constant.Bool {
+		return false
+	}
+	return constant.BoolVal(k.Value) == want
 }
 
 // R14: each option is read where it takes effect.
